@@ -13,7 +13,7 @@ RULE = (
     "non-trivial = forces non-zero (and M>0 for the transformation identity)"
 )
 ASSUMPTIONS = ["finite alphabets for M, alpha, beta; nx<=4, ny<=7, <=2 surfaces", "the incompressible solver is validated separately by C05", "OpenMDAO/NumPy/SciPy trusted"]
-BOUND = {"quick": "M in {0,0.3,0.84}, nx<=3", "thorough": "M in {0,0.3,0.6,0.84,0.94}, nx<=4"}
+BOUND = {"quick": "M in {0,0.3,0.84}, nx<=3 (+ one planform with nx=4)", "thorough": "M in {0,0.3,0.6,0.84,0.94}, nx<=4"}
 TOL = 1e-9
 
 
@@ -26,6 +26,10 @@ def surf_sets(tier):
         if pf == "camber" and nx < 3:
             continue
         out.append([dict(pf=pf, nx=nx, ny=ny, side=side, off=None)])
+    if tier == "quick":
+        # nx = 4 is the smallest mesh with an interior chordwise panel row
+        for side, ny in sides:
+            out.append([dict(pf="twdi", nx=4, ny=ny, side=side, off=None)])
     out.append([dict(pf="swept", nx=3, ny=5, side="full", off=None), dict(pf="rect", nx=2, ny=3, side="full", off=[5.0, 0.3, 0.7], span=3.0, chord=0.8)])
     out.append([dict(pf="twdi", nx=2, ny=3, side="left", off=None), dict(pf="rect", nx=3, ny=2, side="left", off=[5.0, 0.0, 0.7], span=3.0, chord=0.8)])
     return out
